@@ -104,7 +104,8 @@ static void read_file_first(const char* path, int stop) {
   if (fd < 0) { printf("?"); return; }
   n = read(fd, big, sizeof big - 1); close(fd);
   if (n < 0) n = 0;
-  while (k < (size_t) n && big[k] != stop) k++;
+  if (stop == '\n') k = n > 0 && big[n - 1] == '\n' ? (size_t) n - 1 : (size_t) n;   /* comm: name + newline; the name may contain newlines */
+  else while (k < (size_t) n && big[k] != stop) k++;
   puthex(big, k);
 }
 
